@@ -71,6 +71,31 @@ def FPSORT(bits):
 RNE = z3.RNE()
 
 
+def mul_wrapped(x, y, signed):
+    """the W-bit (wrapped) product; up to 32 bits it is taken from the same exact 2W-bit product that mul_fits uses, so that
+    implementation and specification share one multiplier term"""
+    w = x.size()
+    if w <= 32:
+        p = (z3.SignExt(w, x) * z3.SignExt(w, y)) if signed else (z3.ZeroExt(w, x) * z3.ZeroExt(w, y))
+        return z3.Extract(w - 1, 0, p)
+    return x * y
+
+
+def mul_fits(x, y, signed):
+    """exact product representable in the operand width.  Up to 32 bits: by definition through the exact 2W-bit
+    product; at 64 bits: z3's bvsmul_noovfl/bvumul_noovfl predicates (the SMT-LIB definition of the same thing)."""
+    w = x.size()
+    if w <= 32:
+        if signed:
+            p = z3.SignExt(w, x) * z3.SignExt(w, y)
+            return z3.SignExt(w, z3.Extract(w - 1, 0, p)) == p
+        p = z3.ZeroExt(w, x) * z3.ZeroExt(w, y)
+        return z3.Extract(2 * w - 1, w, p) == 0
+    if signed:
+        return z3.And(z3.BVMulNoOverflow(x, y, True), z3.BVMulNoUnderflow(x, y))
+    return z3.BVMulNoOverflow(x, y, False)
+
+
 class Exec:
     def __init__(self, module, stubs=None, unroll=4, inline_depth=12, unroll_for=None):
         self.m = module
@@ -1093,6 +1118,11 @@ class Exec:
         base = name.split('.')[1]
         if base == 'expect':
             return args[0]
+        if base == 'is' and name.startswith('llvm.is.constant'):
+            # __builtin_constant_p: whether the optimiser sees a constant is unspecified -> nondeterministic
+            if getattr(self, 'is_constant', 'nondet') is False:
+                return z3.BitVecVal(0, 1)
+            return z3.If(self.newbool('is_constant'), z3.BitVecVal(1, 1), z3.BitVecVal(0, 1))
         if base in ('sadd', 'ssub', 'smul', 'uadd', 'usub', 'umul') and 'with' in name:
             x, y = args
             signed = base[0] == 's'
@@ -1104,8 +1134,8 @@ class Exec:
                 r = x - y
                 ok = z3.And(z3.BVSubNoOverflow(x, y), z3.BVSubNoUnderflow(x, y, True)) if signed else z3.UGE(x, y)
             else:
-                r = x * y
-                ok = z3.And(z3.BVMulNoOverflow(x, y, True), z3.BVMulNoUnderflow(x, y)) if signed else z3.BVMulNoOverflow(x, y, False)
+                r = mul_wrapped(x, y, signed)
+                ok = mul_fits(x, y, signed)
             return [r, z3.If(ok, z3.BitVecVal(0, 1), z3.BitVecVal(1, 1))]
         if base == 'abs':
             x = args[0]
